@@ -66,11 +66,16 @@ SPECS = [
      "ctor": {"debug": True, "normalize_names": True}},
     {"ddl": 'CREATE TABLE "sales"."orders" ("id" int, "customer" varchar(9));\nCREATE TABLE "sales"."order_lines" ("order_id" int, "qty" int);\n',
      "ctor": {"debug": False, "normalize_names": False, "silent": True}},
+    # more objects that are run in a dialect output mode (the dialect class / field filters are per-run state of the output stage)
+    {"ddl": "CREATE TABLE rs1 (a int ENCODE zstd, b varchar(9)) DISTSTYLE KEY DISTKEY (a);\nCREATE TABLE rs2 (z int);\n", "ctor": {}, "run": {"output_mode": "redshift"}},
+    {"ddl": "CREATE TABLE m1 (a int AUTO_INCREMENT, b int) ENGINE=InnoDB DEFAULT CHARSET=utf8 AUTO_INCREMENT=7;\nCREATE TABLE m2 (q int);\n", "ctor": {}, "run": {"output_mode": "mysql"}},
+    {"ddl": "CREATE TABLE o1 (a NUMBER(*,0), b VARCHAR2(30 CHAR)) TABLESPACE users STORAGE (INITIAL 64K);\n", "ctor": {}, "run": {"output_mode": "oracle", "group_by_type": True}},
+    {"ddl": "CREATE TABLE p.d.bq1 (a INT64, b STRING) PARTITION BY a;\nCREATE SEQUENCE ds.s1 START 1;\n", "ctor": {}, "run": {"output_mode": "bigquery"}},
     # B only alters / indexes a table that only A defines: alone it raises (table not defined in that script) - also after A has run
     {"ddl": "CREATE TABLE xorders (id int, cust int);\nCREATE TABLE xcustomers (id int);\n", "ctor": {}},
     {"ddl": "CREATE TABLE xcustomers2 (id int);\nALTER TABLE xorders ADD CONSTRAINT fk_x FOREIGN KEY (cust) REFERENCES xcustomers (id);\nCREATE INDEX xo_idx ON xorders (cust);\n", "ctor": {}},
 ]
-TWINS = [(0, 12), (0, 13), (12, 13), (2, 14), (15, 16), (17, 18), (1, 19), (6, 20), (21, 22), (21, 1), (23, 24)]
+TWINS = [(0, 12), (0, 13), (12, 13), (2, 14), (15, 16), (17, 18), (1, 19), (6, 20), (21, 22), (21, 1), (27, 28)]
 
 
 def solo_references():
@@ -156,12 +161,16 @@ def slices_of(spec_idx):
     return len(trace)
 
 
-def sched_case(ctx, refs, idxs, schedule):
+def sched_case(ctx, refs, idxs, schedule, fine=False):
     ctx.evaluated()
-    ctx.nontrivial_case(digest("sched|%s|%s" % (idxs, schedule)))
+    ctx.nontrivial_case(digest("sched|%s|%s|%s" % (idxs, schedule, fine)))
     nown = STATE.counters.get("own_violation", 0)
     workers = [(lambda i=i: do_run(construct(SPECS[i]), SPECS[i])) for i in idxs]
-    results, trace, problems = sched.run_schedule(schedule, workers)
+    sched.FINE[0] = bool(fine)
+    try:
+        results, trace, problems = sched.run_schedule(schedule, workers)
+    finally:
+        sched.FINE[0] = False
     if problems:
         ctx.inconclusive_because("scheduler: %s (specs %s schedule %s)" % (problems, idxs, schedule))
         return
@@ -170,7 +179,7 @@ def sched_case(ctx, refs, idxs, schedule):
     for t, (i, res) in enumerate(zip(idxs, results)):
         got = res[1] if res and res[0] == "ok" else ["exc", res[1] if res else "no result"]
         if got != refs[i]:
-            ctx.violation("thread_schedule_interference", {"gen": "schedule", "specs": idxs, "schedule": schedule},
+            ctx.violation("thread_schedule_interference", {"gen": "schedule", "specs": idxs, "schedule": schedule, "fine": bool(fine)},
                           {"thread": t, "observed": short(got, 300), "solo": short(refs[i], 300), "trace": trace[:24], "M-OWN": explain(nown)})
             return
 
@@ -256,7 +265,7 @@ def check_case(ctx, case):
     if g == "sequential":
         seq_case(ctx, refs, case["specs"], case["order"])
     elif g == "schedule":
-        sched_case(ctx, refs, case["specs"], case["schedule"])
+        sched_case(ctx, refs, case["specs"], case["schedule"], fine=case.get("fine", False))
     elif g == "stress":
         for _ in range(5):
             stress(ctx, refs, case["threads"], case["rounds"], "replay")
@@ -323,6 +332,26 @@ def run_shard(ctx):
             schedule += [t] * nsl[x]
         rng.shuffle(schedule)
         sched_case(ctx, refs, idxs, schedule)
+    # (2b) sampled schedules with the finer yield points of the output stage (after Output() is built, before each statement is
+    #      formatted, before regrouping) for objects that are run in different output modes
+    moded = [i for i, sp in enumerate(SPECS) if sp.get("run", {}).get("output_mode")]
+    fine_slices = {}
+    for j in range(ctx.budget(120, 4000)):
+        k = rng.choice([2, 2, 3])
+        idxs = rng.sample(moded, min(k, len(moded))) if rng.random() < 0.7 else rng.sample(range(n), k)
+        sched.FINE[0] = True
+        try:
+            for x in idxs:
+                if x not in fine_slices:
+                    fine_slices[x] = slices_of(x)
+        finally:
+            sched.FINE[0] = False
+        schedule = []
+        for t, x in enumerate(idxs):
+            schedule += [t] * fine_slices[x]
+        rng.shuffle(schedule)
+        sched_case(ctx, refs, idxs, schedule, fine=True)
+        ctx.obs["fine_grained_schedules"] += 1
     # (3) free-running stress
     if ctx.tier == "quick":
         stress(ctx, refs, 8, 10, "free_running")
